@@ -550,7 +550,7 @@ Definition cseq (s : nat) (o : cop) : nat * cres :=
 
 Definition cblocked (r : cres) : bool := match r with CBlocked => true | _ => false end.
 
-Definition crun := run nat cop cres 0 cseq cblocked CCancelled.
+Notation crun := (run nat cop cres 0 cseq cblocked CCancelled).
 
 (* thread 0: DecWait parks, is woken after thread 1's Inc, succeeds; thread 2's DecWait gives up;
    thread 1 then reads 0. *)
@@ -558,16 +558,28 @@ Definition ctrace : list (event cop) :=
   [Inv 0 CDecWait; Crit 0; Inv 1 CInc; Inv 2 CDecWait; Crit 2; Crit 1; Crit 0; Crit 2; Cancel 2;
    Ret 1; Ret 0; Inv 1 CGet; Crit 1; Ret 2; Ret 1].
 
+Example ctrace_runs_compute :
+  match crun ctrace with
+  | Some c => st c = 0 /\
+      map (fun e => (le_tid e, le_op e, le_res e)) (lin c) =
+        [(1, CInc, CUnit); (0, CDecWait, CUnit); (2, CDecWait, CCancelled); (1, CGet, CVal 0)]
+  | None => False
+  end.
+Proof. vm_compute. split; reflexivity. Qed.
+
 Example ctrace_runs : exists c, crun ctrace = Some c /\ st c = 0 /\
   map (fun e => (le_tid e, le_op e, le_res e)) (lin c) =
     [(1, CInc, CUnit); (0, CDecWait, CUnit); (2, CDecWait, CCancelled); (1, CGet, CVal 0)].
-Proof. eexists. split; [reflexivity|]. split; reflexivity. Qed.
+Proof.
+  pose proof ctrace_runs_compute as H. destruct (crun ctrace) as [c|]; [|contradiction].
+  exists c. split; [reflexivity|exact H].
+Qed.
 
 Example ctrace_linearizable : exists c, crun ctrace = Some c /\
   linearization nat cop cres 0 cseq cblocked CCancelled ctrace c.
 Proof.
-  destruct ctrace_runs as (c & R & _). exists c. split; [assumption|].
-  apply lo_linearizable. assumption.
+  destruct ctrace_runs as (c & R & _). exists c. split; [exact R|].
+  exact (lo_linearizable nat cop cres 0 cseq cblocked CCancelled ctrace c R).
 Qed.
 
 End CounterExample.
